@@ -154,7 +154,7 @@ func baseOf(v *sval) string {
 	for v != nil {
 		switch v.kind {
 		case 'a':
-			if v.atom == "IN" || strings.HasPrefix(v.atom, "DB#") {
+			if v.atom == "IN" || v.atom == "IN2" || strings.HasPrefix(v.atom, "DB#") {
 				return v.atom
 			}
 			return ""
@@ -179,7 +179,7 @@ func (r *symRun) project(v *sval, name string) *sval {
 		}
 		return svUnknown
 	case 'a':
-		if v.atom == "IN" || strings.HasPrefix(v.atom, "DB#") {
+		if v.atom == "IN" || v.atom == "IN2" || strings.HasPrefix(v.atom, "DB#") {
 			return r.atom(v.atom + "." + name)
 		}
 	}
@@ -203,7 +203,7 @@ func (r *symRun) update(v *sval, path []string, nv *sval) *sval {
 		}
 		base = v.base
 	case 'a':
-		if v.atom == "IN" || strings.HasPrefix(v.atom, "DB#") {
+		if v.atom == "IN" || v.atom == "IN2" || strings.HasPrefix(v.atom, "DB#") {
 			base = v
 		}
 	}
@@ -286,6 +286,12 @@ func (r *symRun) varValue(id *ast.Ident, s kit.S) *sval {
 		}
 	}
 	if types.Object(r.wl.w.Batch) == o {
+		switch r.v.second {
+		case 1:
+			return r.list([]*sval{r.atom("IN"), r.atom("IN2")})
+		case 2:
+			return r.list([]*sval{r.atom("IN2"), r.atom("IN")})
+		}
 		return r.list([]*sval{r.atom("IN")})
 	}
 	return svUnknown
@@ -558,6 +564,8 @@ func (r *symRun) evalCall(call *ast.CallExpr, s kit.S) *sval {
 			switch b := baseOf(r.eval(sel.X, s)); {
 			case b == "IN":
 				return r.xor([]string{"CRC(IN)"})
+			case b == "IN2":
+				return r.xor([]string{"CRC(IN2)"})
 			case strings.HasPrefix(b, "DB#"):
 				return r.xor([]string{"CRC(" + b + ")"})
 			}
@@ -658,6 +666,31 @@ func (r *symRun) equal(a, b *sval, s kit.S) (bool, bool) {
 		return true, true
 	}
 	x, y := a.atom, b.atom
+	// the bystander point of a two-point batch (mergeVal.second): a valid point whose
+	// identity is neither that of a stored row nor that of the other incoming point
+	// (Collapse leaves one point per identity), with a non-empty key, not a node-type point
+	if strings.HasPrefix(x, "IN2.") || strings.HasPrefix(y, "IN2.") {
+		if strings.HasPrefix(y, "IN2.") {
+			x, y = y, x
+		}
+		isID := x == "IN2.Type" || x == "IN2.Key"
+		switch {
+		case !isID:
+			return false, false
+		case strings.HasPrefix(y, "DB#") && (strings.HasSuffix(y, ".Type") || strings.HasSuffix(y, ".Key")):
+			return false, true
+		case y == "IN.Type" || y == "IN.Key":
+			return false, true
+		case y == `C:""`:
+			return false, true
+		case x == "IN2.Type" && y == "C:"+strconv.Quote(r.wl.ntype):
+			return false, true
+		case x == "IN2.Key" && strings.HasPrefix(y, "C:") && s.Get("kn") != "" && y == "C:"+strconv.Quote(s.Get("kn")):
+			// compared with the other point's normalised key
+			return false, true
+		}
+		return false, false
+	}
 	if strings.HasPrefix(y, "IN.") || (strings.HasPrefix(x, "DB#") && !strings.HasPrefix(y, "DB#")) {
 		x, y = y, x
 	}
@@ -829,9 +862,27 @@ func (wl *writerLoop) runSym(v mergeVal) *mergeOutcome {
 			if d := s.Get("rnext:" + strconv.Itoa(int(call.Pos()))); d != "" {
 				return d == "T", true
 			}
+			// <incoming>.Time.IsZero(): the valuation says whether the point carries a time
+			if sel, ok := ast.Unparen(call.Fun).(*ast.SelectorExpr); ok && len(call.Args) == 0 && kit.QualName(kit.Callee(info, call)) == "time.(Time).IsZero" {
+				if t := r.eval(sel.X, s); t.kind == 'a' && t.atom == "IN.Time" {
+					out.zeroTest = true
+					return v.tzero, true
+				} else if t.kind == 'a' && t.atom == "IN2.Time" {
+					return false, true
+				}
+				return false, false
+			}
 			if len(call.Args) == 1 {
 				if sel, ok := ast.Unparen(call.Fun).(*ast.SelectorExpr); ok {
 					q := kit.QualName(kit.Callee(info, call))
+					if q == "time.(Time).Equal" {
+						for _, pr := range [][2]ast.Expr{{sel.X, call.Args[0]}, {call.Args[0], sel.X}} {
+							if t := r.eval(pr[0], s); t.kind == 'a' && t.atom == "IN.Time" && isZeroTimeLit(info, pr[1]) {
+								out.zeroTest = true
+								return v.tzero, true
+							}
+						}
+					}
 					if q == "time.(Time).Before" || q == "time.(Time).After" || q == "time.(Time).Equal" {
 						a, b := timeTerm(sel.X, s), timeTerm(call.Args[0], s)
 						var row mergeRow
@@ -867,6 +918,16 @@ func (wl *writerLoop) runSym(v mergeVal) *mergeOutcome {
 		a, b, op, ok := kit.CmpAtom(e)
 		if !ok {
 			return false, false
+		}
+		if op == token.EQL || op == token.NEQ {
+			for _, pr := range [][2]ast.Expr{{a, b}, {b, a}} {
+				if isZeroTimeLit(info, pr[1]) {
+					if t := r.eval(pr[0], s); t.kind == 'a' && t.atom == "IN.Time" {
+						out.zeroTest = true
+						return v.tzero == (op == token.EQL), true
+					}
+				}
+			}
 		}
 		va, vb := r.eval(a, s), r.eval(b, s)
 		num := func(x *sval) (int, bool) {
@@ -950,6 +1011,31 @@ func (wl *writerLoop) runSym(v mergeVal) *mergeOutcome {
 					}
 					return []kit.S{s}
 				}
+			}
+		}
+		if call == wl.w.Exec.Call && v.second != 0 && r.tcol >= 0 && r.tcol < len(call.Args) {
+			if t := r.eval(call.Args[r.tcol], s); t.kind == 'a' && t.atom == "IN2.Type" {
+				// the write of the bystander point: a new row, bound to its own fields
+				prob := ""
+				if len(call.Args) > 0 {
+					if t := r.eval(call.Args[0], s); !(t.kind == 'a' && t.atom == "NEW") {
+						prob = "is written under " + describeIDTerm(t)
+					}
+				}
+				for i, col := range wl.w.Exec.Stmts[0].Cols {
+					if i == 0 || i >= len(call.Args) || prob != "" {
+						continue
+					}
+					if t := r.eval(call.Args[i], s); t.kind == 'a' && (strings.HasPrefix(t.atom, "IN.") || strings.HasPrefix(t.atom, "DB#")) {
+						prob = "has column " + col + " bound to " + t.atom
+					}
+				}
+				n, _ := strconv.Atoi(s.Get("x2"))
+				s = s.Set("x2", strconv.Itoa(n+1))
+				if prob != "" && s.Get("x2p") == "" {
+					s = s.Set("x2p", prob)
+				}
+				return []kit.S{s}
 			}
 		}
 		if call == wl.w.Exec.Call {
@@ -1144,6 +1230,7 @@ func (wl *writerLoop) runSym(v mergeVal) *mergeOutcome {
 						if s.Get("in") == "1" && isUint32(info.TypeOf(x.Lhs[i])) {
 							for _, t := range r.xorOf(r.atom("N:0"), rv).xs {
 								switch {
+								case t == "CRC(IN2)":
 								case t == "CRC(IN)":
 									s = addFx(s, "x:in")
 								case strings.HasPrefix(t, "CRC(DB#"):
@@ -1221,7 +1308,7 @@ func (wl *writerLoop) runSym(v mergeVal) *mergeOutcome {
 		}
 		isBatch := len(lv.items) > 0
 		for _, it := range lv.items {
-			if baseOf(it) != "IN" {
+			if b := baseOf(it); b != "IN" && b != "IN2" {
 				isBatch = false
 			}
 		}
@@ -1275,13 +1362,22 @@ func (wl *writerLoop) runSym(v mergeVal) *mergeOutcome {
 	}
 	seen := map[string]bool{}
 	for _, e := range res.Exits {
-		if e.Return == nil || e.State.Get("in") != "done" {
+		if e.Return == nil || e.State.Get("in") == "" {
 			continue
 		}
 		if st.ReturnsNil(e.Return, e.State) == "nonnil" {
 			continue
 		}
 		out.paths++
+		if v.second != 0 {
+			folded := 0
+			for _, t := range strings.Split(e.State.Get("propx"), ",") {
+				if t == "CRC(IN2)" {
+					folded++
+				}
+			}
+			out.second = append(out.second, e.State.Get("x2")+"|"+e.State.Get("x2p")+"|"+strconv.Itoa(folded)+"|"+e.State.Get("propx"))
+		}
 		out.props = append(out.props, e.State.Get("prop")+"|"+e.State.Get("propx")+"|"+e.State.Get("commitNoProp")+"|"+projectFx(e.State.Get("fx"), "x:"))
 		fx := e.State.Get("fx")
 		if !seen[fx] {
@@ -1292,6 +1388,23 @@ func (wl *writerLoop) runSym(v mergeVal) *mergeOutcome {
 	sort.Strings(out.fx)
 	out.unknown = uniqStrings(out.unknown)
 	return out
+}
+
+// isZeroTimeLit: the literal time.Time{}.
+func isZeroTimeLit(info *types.Info, e ast.Expr) bool {
+	cl, ok := ast.Unparen(e).(*ast.CompositeLit)
+	return ok && len(cl.Elts) == 0 && kit.IsNamedType(info.TypeOf(cl), "time", "Time")
+}
+
+// describeIDTerm words the row id a point is written under.
+func describeIDTerm(t *sval) string {
+	switch {
+	case t.kind == 'a' && strings.HasPrefix(t.atom, "DBID#"):
+		return "the row id of stored row " + t.atom[len("DBID#"):] + " (a different point)"
+	case t.kind == 'a':
+		return "the id " + t.atom
+	}
+	return "an id that is not a fresh one"
 }
 
 func rootIdent(e ast.Expr) *ast.Ident {
